@@ -19,10 +19,10 @@ func init() {
 			"Not decided: bit-pool arithmetic for all recycle orders, the 64-query limit, behaviour of reads under lock.",
 		TrustedBase: []string{"go/packages + go/types type checking of /repo", "go/cfg control-flow graphs", "anchor table of DESIGN.md §2.3 (field classes)", "callee resolution through types (no name matching)"},
 		Rules: []Rule{
-			{ID: "C07/R1", Run: c07r1, Min: 20},
-			{ID: "C07/R2+R3", Run: c07r2r3, Min: 10},
-			{ID: "C07/R4", Run: c07r4, Min: 10},
-			{ID: "C07/R5", Run: c07r5, Min: 2},
+			{ID: "C07/R1", Run: c07r1, Min: 1},
+			{ID: "C07/R2+R3", Run: c07r2r3, Min: 1},
+			{ID: "C07/R4", Run: c07r4, Min: 1},
+			{ID: "C07/R5", Run: c07r5, Min: 1},
 		},
 	})
 }
